@@ -66,6 +66,17 @@ CHECKS['C13'] = dict(
     technique="Coq model of the symbol table with arity/position theorems + per-signature correspondence + clingo.ast arity oracle in both modes",
     design="6.C13")
 
+CHECKS['C06'] = dict(
+    text="Theorem C06_values_lex_ok (all value tokens, all constant tables): convert_value yields a lexically valid gringo leaf of the "
+         "expected class (integer / variable / anonymous / declared constant / quoted string). The printer model Asp/Print.v reproduces "
+         "the implementation's program text for every element tree of the stream (byte-exact correspondence), convert_value is compared "
+         "at function level on all tokens over a small alphabet. Acceptance of the whole text is decided per program by the solver "
+         "itself: clingo.ast.parse_string on every output, clingo grounding for wide-generator inputs (which meet the grounding hypothesis "
+         "by construction), telingo for temporal outputs. Compile-level lex_ok/safe theorems for the fragment are not proved yet: partial.",
+    note="Trusted: Coq kernel; clingo/telingo as the definition of acceptance; corpus texts are only syntax-scored (their grounding hypothesis is not established).",
+    technique="Coq theorem on leaf terms + byte-exact printer correspondence + solver-in-the-loop oracle (parse, ground, telingo)",
+    design="6.C06")
+
 NOT_YET = {}
 
 
